@@ -1126,6 +1126,95 @@ func (h *heap) applyOp(c *cop, ch *chooser) (obj, bool) {
 		}
 		a.data = append(a.data, bs...)
 		return a, false
+	case "call":
+		// A value reaching a function as an argument: the callee's parameter
+		// LIST (&rest / &optional binding) is always fresh, its ELEMENTS are
+		// the caller's own objects; a positional parameter IS the argument.
+		mode, shape := c.i, c.j
+		V := h.argObj(c.args[0], false)
+		sortFresh := func(xs []obj) *mSeq {
+			cp := append([]obj(nil), xs...)
+			sort.SliceStable(cp, func(i, j int) bool {
+				return lessBy(c.pred, sortKey(cp[i], c.keyfn), sortKey(cp[j], c.keyfn))
+			})
+			return h.newSeq(false, cp)
+		}
+		opt := func(args []obj, i int) obj {
+			if i < len(args) {
+				return args[i]
+			}
+			return h.emptyList()
+		}
+		callee := func(args []obj) (obj, bool) {
+			switch shape {
+			case 0:
+				return sortFresh(args), false
+			case 1:
+				if len(args) < 1 {
+					return nil, true
+				}
+				return sortFresh(args[1:]), false
+			case 2:
+				var rest []obj
+				if len(args) > 2 {
+					rest = args[2:]
+				}
+				return h.newSeq(false, []obj{opt(args, 0), opt(args, 1), sortFresh(rest)}), false
+			default:
+				if len(args) < 1 || len(args) > 2 {
+					return nil, true
+				}
+				x, ok := asSeq(args[0])
+				if !ok {
+					return args[0], false
+				}
+				if x.b.sealed {
+					return sortFresh(x.cells()), false
+				}
+				cells := x.cells()
+				sort.SliceStable(cells, func(i, j int) bool {
+					return lessBy(c.pred, sortKey(cells[i], c.keyfn), sortKey(cells[j], c.keyfn))
+				})
+				return x, false
+			}
+		}
+		switch mode {
+		case 0, 1, 2:
+			s, ok := asSeq(A)
+			if !ok || s.vec {
+				return nil, true
+			}
+			var args []obj
+			if mode == 1 {
+				args = append(args, V)
+			}
+			return callee(append(args, s.cells()...))
+		case 3, 6:
+			return callee([]obj{A})
+		case 4:
+			return callee([]obj{A, V, B})
+		case 5:
+			s, ok := asSeq(A)
+			if !ok {
+				return nil, true
+			}
+			elems := append([]obj(nil), s.cells()...)
+			out := make([]obj, len(elems))
+			for i, x := range elems {
+				r, e := callee([]obj{x})
+				if e {
+					return nil, true
+				}
+				out[i] = r
+			}
+			return h.newSeq(false, out, s), false
+		default:
+			s, ok := asSeq(A)
+			if !ok {
+				return nil, true
+			}
+			return h.newSeq(true, s.cells(), s), false
+		}
 	case "stable-sort":
 		s, ok := asSeq(A)
 		if !ok {
